@@ -43,7 +43,7 @@ class Lab:
         rng = self.rng
         self.trees.reset()
         self.names = names or rng.sample(TREE_NAMES, rng.randint(2, 4))
-        if names is None and rng.random() < 0.35:
+        if names is None and rng.random() < (getattr(self, "p_twins", None) or 0.35):
             # a name and the same name behind the file-name separator (x_rig / rig): ambiguous in '_' joined file names
             self.names = sorted(set(self.names[:2]) | {"rig", self.twin})
         if names is None and rng.random() < 0.2:
